@@ -78,6 +78,11 @@ fn std_validator(all: bool, rb: &[u8; 64], pos: u64, nb: u16) -> V {
 /// The handlers run from an arbitrary history: each status word seen earlier on the link (if any) is an arbitrary
 /// word of its type. A handler whose verdict depends on what was stored before (e.g. skipping the check of a
 /// repeated word) is then exposed.
+/// what a per-word handler must leave alone: the state machine and the stored words of the OTHER types
+fn frame_snapshot(v: &V) -> (Q, Option<Ihw>, Option<Tdt>, Option<Ddw0>) {
+    (fsm_state_of(v), v.status_words.ihw().copied(), v.status_words.tdt().copied(), v.status_words.ddw().copied())
+}
+
 fn arbitrary_stored_words(v: &mut V) {
     if kani::any() {
         let p: [u8; 10] = kani::any();
@@ -105,7 +110,11 @@ fn full_handler_ihw() {
     let mut v = std_validator(all, &rb, 64, 0);
     arbitrary_stored_words(&mut v);
     let w: [u8; 10] = kani::any();
+    let snap0 = frame_snapshot(&v);
     v.preprocess_ihw(&w[..]);
+    let snap1 = frame_snapshot(&v);
+    assert!(snap1.0 == snap0.0, "[C09] a word handler does not move the state machine (only `advance` does)");
+    assert!(snap1.2 == snap0.2 && snap1.3 == snap0.3, "[C09][C02] a word handler replaces only the stored word of its own type");
     assert!(!(sent_errors() > 0 && spec_ihw_sane(&w)), "[C01][C11] sane IHW is not reported by the IHW handler");
     assert!(!(sent_errors() == 0 && !spec_ihw_sane(&w)), "[C02][C09][C11] a word that is not a sane IHW is reported where an IHW is due");
     assert!(sent_total() == sent_errors() && sent_errors() <= 1, "[C01] at most one message per IHW");
@@ -155,7 +164,11 @@ fn full_handler_tdt() {
     let mut v = std_validator(all, &rb, 64, 2);
     arbitrary_stored_words(&mut v);
     let w: [u8; 10] = kani::any();
+    let snap0 = frame_snapshot(&v);
     v.preprocess_tdt(&w[..]);
+    let snap1 = frame_snapshot(&v);
+    assert!(snap1.0 == snap0.0, "[C09] a word handler does not move the state machine (only `advance` does)");
+    assert!(snap1.1 == snap0.1 && snap1.3 == snap0.3, "[C09][C02] a word handler replaces only the stored word of its own type");
     assert!(!(sent_errors() > 0 && spec_tdt_sane(&w)), "[C01][C11] sane TDT is not reported by the TDT handler");
     assert!(!(sent_errors() == 0 && !spec_tdt_sane(&w)), "[C02][C09][C11] a word that is not a sane TDT is reported");
     assert!(sent_total() == sent_errors() && sent_errors() <= 1, "[C01] at most one message per TDT (no stave target)");
@@ -175,7 +188,11 @@ fn full_handler_ddw0() {
     let mut v = std_validator(all, &rb, 64, 3);
     arbitrary_stored_words(&mut v);
     let w: [u8; 10] = kani::any();
+    let snap0 = frame_snapshot(&v);
     v.preprocess_ddw0(&w[..]);
+    let snap1 = frame_snapshot(&v);
+    assert!(snap1.0 == snap0.0, "[C09] a word handler does not move the state machine (only `advance` does)");
+    assert!(snap1.1 == snap0.1 && snap1.2 == snap0.2, "[C09][C02] a word handler replaces only the stored word of its own type");
     let rdh_viol = all && (s_stop_bit(&rb) != 1 || s_pages_counter(&rb) == 0);
     let viol = !spec_ddw0_sane(&w) || rdh_viol;
     assert!(!(sent_errors() > 0 && !viol), "[C01][C11] sane DDW0 in a stop-bit packet is not reported");
